@@ -64,6 +64,9 @@ pub struct PublicInput {
     rc_max: u32,
 }
 
+// Number of dynamic parameters of the dynamic layout.
+const N_DYNAMIC_PARAMS: usize = 340;
+
 impl StarkProof {
     const COMPONENT_HEIGHT: u32 = 16;
     pub fn stark_config(&self) -> anyhow::Result<StarkConfig> {
@@ -112,6 +115,9 @@ impl StarkProof {
         let layer_log_sizes = self.layer_log_sizes(&self.public_input.dynamic_params)?;
 
         let fri_step_list = fri.fri_step_list;
+        if fri_step_list.is_empty() {
+            anyhow::bail!("Empty fri_step_list");
+        }
         let log_last_layer_degree_bound = log2_if_power_of_2(fri.last_layer_degree_bound)
             .ok_or(anyhow::anyhow!("Invalid last layer degree bound"))?;
         let fri = FriConfig {
@@ -120,14 +126,16 @@ impl StarkProof {
             inner_layers: fri_step_list[1..]
                 .iter()
                 .zip(layer_log_sizes[2..].iter())
-                .map(|(layer_steps, layer_log_rows)| TableCommitmentConfig {
-                    n_columns: 2_u32.pow(*layer_steps),
+                .map(|(layer_steps, layer_log_rows)| Ok(TableCommitmentConfig {
+                    n_columns: 2_u32
+                        .checked_pow(*layer_steps)
+                        .ok_or(anyhow::anyhow!("Invalid fri step"))?,
                     vector: VectorCommitmentConfig {
                         height: *layer_log_rows,
                         n_verifier_friendly_commitment_layers,
                     },
-                })
-                .collect(),
+                }))
+                .collect::<anyhow::Result<Vec<_>>>()?,
             fri_step_sizes: fri_step_list,
             log_last_layer_degree_bound,
         };
@@ -148,9 +156,11 @@ impl StarkProof {
         dynamic_params: &Option<BTreeMap<String, u32>>,
     ) -> anyhow::Result<u32> {
         let consts = self.public_input.layout.get_dynamics_or_consts(dynamic_params);
-        let effective_component_height = Self::COMPONENT_HEIGHT * consts.cpu_component_step;
-        log2_if_power_of_2(effective_component_height * self.public_input.n_steps)
-            .ok_or(anyhow::anyhow!("Invalid cpu component step"))
+        let trace_length = Self::COMPONENT_HEIGHT
+            .checked_mul(consts.cpu_component_step)
+            .and_then(|height| height.checked_mul(self.public_input.n_steps))
+            .ok_or(anyhow::anyhow!("Invalid number of steps"))?;
+        log2_if_power_of_2(trace_length).ok_or(anyhow::anyhow!("Invalid cpu component step"))
     }
     fn log_eval_damain_size(
         &self,
@@ -164,7 +174,13 @@ impl StarkProof {
     ) -> anyhow::Result<Vec<u32>> {
         let mut layer_log_sizes = vec![self.log_eval_damain_size(dynamic_params)?];
         for layer_step in &self.proof_parameters.stark.fri.fri_step_list {
-            layer_log_sizes.push(layer_log_sizes.last().unwrap() - layer_step);
+            layer_log_sizes.push(
+                layer_log_sizes
+                    .last()
+                    .unwrap()
+                    .checked_sub(*layer_step)
+                    .ok_or(anyhow::anyhow!("Invalid fri step"))?,
+            );
         }
         Ok(layer_log_sizes)
     }
@@ -181,7 +197,11 @@ impl StarkProof {
             Self::continuous_page_headers(&public_input.public_memory, z, alpha);
         let main_page = Self::main_page(&public_input.public_memory)?;
         let dynamic_params = public_input.dynamic_params.unwrap_or_default();
-        let memory_segments = Builtin::sort_segments(public_input.memory_segments)
+        // The verifier reads the dynamic parameters positionally, in key order.
+        if public_input.layout == Layout::Dynamic && dynamic_params.len() != N_DYNAMIC_PARAMS {
+            anyhow::bail!("Invalid number of dynamic params");
+        }
+        let memory_segments = Builtin::sort_segments(public_input.memory_segments)?
             .into_iter()
             .map(|s| SegmentInfo { begin_addr: s.begin_addr, stop_ptr: s.stop_ptr })
             .collect::<Vec<_>>();
